@@ -475,15 +475,42 @@ class Fn:
         if self._dom is None:
             reach = self.reachable(0)
             if self.merges[0] or self.merges[1]:
-                # with infeasible-path pruning: d dominates b iff b is unreachable once d is removed
-                dom = {b: {b, 0} for b in reach}
-                for d in reach:
-                    if d == 0:
-                        continue
-                    left = self.reachable(0, cut_blocks=[d])
-                    for b in reach:
-                        if b not in left:
-                            dom[b].add(d)
+                # with infeasible-path pruning: must-pass-through over the (block, merge state) product
+                # graph; D(n) = {block(n)} | meet of D over the predecessors of n, and a block's
+                # dominators are those common to all its product nodes
+                st0 = (None,) * len(self.merges[0])
+                nodes = {(0, st0): 0}
+                order = [(0, st0)]
+                preds = {0: []}
+                i = 0
+                while i < len(order):
+                    b, st = order[i]
+                    st2, succ = self._step(b, st)
+                    for s_ in succ:
+                        k = (s_, st2)
+                        if k not in nodes:
+                            nodes[k] = len(order)
+                            order.append(k)
+                            preds[nodes[k]] = []
+                        preds[nodes[k]].append(i)
+                    i += 1
+                allb = frozenset(reach)
+                D = [allb] * len(order)
+                D[0] = frozenset([0])
+                changed = True
+                while changed:
+                    changed = False
+                    for n in range(1, len(order)):
+                        new = None
+                        for p_ in preds[n]:
+                            new = D[p_] if new is None else (new & D[p_])
+                        new = (new or frozenset()) | {order[n][0]}
+                        if new != D[n]:
+                            D[n] = new
+                            changed = True
+                dom = {}
+                for n, (b, st) in enumerate(order):
+                    dom[b] = set(D[n]) if b not in dom else (dom[b] & D[n])
                 self._dom = dom
                 return self._dom
             allb = set(reach)
